@@ -127,6 +127,23 @@ pub fn gen(rng: &mut ChaCha20Rng, n: usize, thorough: bool) -> Vec<Case> {
         if v.len() < 20000 && deserialize::<Transaction>(&v).is_ok() { out.push(rename(c01::mk("tx", &v, vec!["src:repo-vector".into()], true))); }
         if v.len() < 20000 && deserialize::<BlockHeader>(&v).is_ok() { out.push(rename(c01::mk("header", &v, vec!["src:repo-vector".into()], true))); }
     }
+    // targeted: every hashed length prefix on the compact-size boundaries (the ids hash the consensus serialization, reference encoder)
+    for &len in &[252usize, 253, 254, 65535, 65536] {
+        let mut tags = vec!["src:targeted-varint-boundary".to_string(), format!("len:{}", len)];
+        let mut tx = rtx(rng, Feat { big: false, no_witness: false }, &mut tags);
+        if tx.input.is_empty() { tx.input.push(rtxin(rng, Feat::default(), &mut tags)); }
+        if tx.output.is_empty() { tx.output.push(rtxout(rng, Feat::default(), &mut tags)); }
+        if len % 2 == 0 || len == 65535 { tx.input[0].script_sig = Script::from(rbytes(rng, len)); tags.push("at:script_sig".into()); }
+        if len % 2 == 1 { tx.output[0].script_pubkey = Script::from(rbytes(rng, len)); tags.push("at:script_pubkey".into()); }
+        out.push(rename(c01::mk("tx", &ref_tx(&tx), tags, true)));
+        let mut tags = vec!["src:targeted-varint-boundary".to_string(), format!("len:{}", len)];
+        let mut h = c01::rheader(rng, &mut tags);
+        match &mut h.ext {
+            BlockExtData::Proof { challenge, .. } => { *challenge = Script::from(rbytes(rng, len)); tags.push("at:challenge".into()); }
+            BlockExtData::Dynafed { current, .. } => { *current = elements::dynafed::Params::Compact { signblockscript: Script::from(rbytes(rng, len)), signblock_witness_limit: 7, elided_root: elements::dynafed::ElidedRoot::from_byte_array(r32(rng)) }; tags.push("at:signblockscript".into()); }
+        }
+        out.push(rename(c01::mk("header", &ref_header_vec(&h), tags, true)));
+    }
     for k in 0..n {
         let mut tags = vec!["src:structured".to_string()];
         if k % 4 == 3 {
